@@ -66,7 +66,7 @@ CHECKS["C08"] = (
 )
 CHECKS["C14"] = (
     "bounded symbolic execution (CrossHair+z3) over symbolic priorities / spec-list arrangements / bracketings / stage configurations; composed pipelines compared with one pipeline defined with the concatenated items, by structure and by converting probe rules",
-    "Resolver: 4 named pipelines, priorities 0..1 (quick) / 0..2 (thorough), all 64 ordered spec lists, resolved once or twice. Addition: 8 bracketing/history variants x 4 probe shapes. Backend stages: backend/user/output-format pipelines present or absent x output format omitted/default/alt x 1..2 rules x 1..2 conditions. Order is observed through order-sensitive marker items (field suffix, query embedding, output concatenation).",
+    "Resolver: 4 named pipelines, priorities 0..1 (quick) / 0..2 (thorough), all 64 ordered spec lists, resolved once or twice. Addition: 10 bracketing/history variants (incl. a post-processing-only operand reused in a later sum while the first backend keeps converting) x 4 probe shapes. Backend stages: backend/user/output-format pipelines present or absent x output format omitted/default/alt x 1..2 rules x 1..2 conditions. Order is observed through order-sensitive marker items (field suffix, query embedding, output concatenation).",
     TB,
     "5.C14",
 )
